@@ -1,7 +1,9 @@
 #!/bin/bash
-# usage: tools/goal.sh coq/Proofs/X.v LINE  — show the proof state after line LINE (scratch aid, not machinery)
+# usage: tools/goal.sh coq/Proofs/X.v LINE [MAXLINES] — show the proof state after line LINE (scratch aid, not machinery)
 f=$1; n=$2
 d=/verif/build/scratch; mkdir -p $d
-head -n $n "$f" > $d/Goal_tmp.v
-printf '\nShow.\nAbort.\n' >> $d/Goal_tmp.v
-cd /verif/coq && timeout 300 coqc -Q . FT $d/Goal_tmp.v 2>&1 | head -${3:-80}
+t=$d/Goal_$$_tmp.v
+head -n $n "$f" > $t
+printf '\nShow.\nAbort.\n' >> $t
+cd /verif/coq && timeout 300 coqc -Q . FT $t 2>&1 | head -${3:-80}
+rm -f $d/Goal_$$_tmp.* $d/.Goal_$$_tmp.aux
